@@ -470,6 +470,74 @@ CLEAN_CASE = mkcase([W(0, 16, 1), SNAP(1, False), W(16, 24, 2), SNAP(2, False), 
                      CLEAN(5, True), CLEAN(5, False)], K=8, nb=16, punch=False)
 
 
+def enum_preload_dedup_cases(K=8, rev=False):
+    """preload's removal of duplicate blocks (backup.go preload: the run state file / fileIndx / lOffset / length):
+    blocks are overwritten while punching is off, so the older copies stay; then punching comes on and the
+    chain is preloaded (Reload, or close / open with preload).  Directed layouts: the duplicates in the older file
+    are NOT adjacent (distance 2, 3, 5) and the blocks between them live only in that older file;
+      A  one older automatic snapshot, duplicates rewritten in the head
+      B  the same above a user-created snapshot
+      C  two older automatic snapshots, the duplicates in the newer one
+      D  duplicates between two automatic snapshots below a user-created snapshot (whose image holds the
+         blocks in between)
+    followed by reads, close / open without preload and reads again"""
+    out = []
+    n = 12
+    for dist in (2, 3, 5):
+        b = 2
+        layouts = {
+            "A": [W(0, n * K, 1), SNAP(1, False), W(b * K, K, 2), W((b + dist) * K, K, 3)],
+            "B": [W(0, n * K, 1), SNAP(1, True), W(0, n * K, 2), SNAP(2, False), W(b * K, K, 3), W((b + dist) * K, K, 4)],
+            "C": [W(0, n * K, 1), SNAP(1, False), W(K, 9 * K, 2), SNAP(2, False), W(b * K, K, 3), W((b + dist) * K, K, 4),
+                  W((b + dist) * K + 3, 2, 5)],
+            "D": [W(0, n * K, 1), SNAP(1, False), W(b * K, K, 2), W((b + dist) * K, K, 3), SNAP(2, False), W(0, K, 4),
+                  SNAP(3, True), W(K, K, 5)],
+        }
+        for name, ops in sorted(layouts.items()):
+            for trig in ([RELOAD(True)], [PUNCH(True), REOPEN(True)]):
+                o2 = list(ops) + trig + [R(0, n * K), R(b * K + 3, dist * K), REOPEN(False), R(0, n * K)]
+                out.append(mkcase(o2, K=K, nb=n, punch=False, rev=rev))
+    return out
+
+
+def preload_dedup_cases(rng, n, rev=False):
+    """random variant: punching off while single blocks of a written cluster are overwritten across 1-3
+    snapshots of either kind, then punching on at a preload (Reload / close-open with preload), reads, more
+    writes, a second preload"""
+    out = []
+    for _ in range(n):
+        K, nb = 8, rng.choice([8, 12])
+        ops = [W(0, nb * K, 1)]
+        tok = 1
+        name = 0
+        for _ in range(rng.randint(1, 3)):
+            name += 1
+            ops.append(SNAP(name, rng.random() < 0.3))
+            blocks = rng.sample(range(nb), rng.randint(2, 4))
+            for bl in blocks:
+                tok += 1
+                if rng.random() < 0.8:
+                    ops.append(W(bl * K, K, tok))
+                else:
+                    o = rng.randrange(K)
+                    ops.append(W(bl * K + o, rng.randint(1, K - o), tok))
+        for rnd in range(rng.randint(1, 2)):
+            ops += rng.choice([[RELOAD(True)], [PUNCH(True), REOPEN(True)], [PUNCH(True), RELOAD(True)]])
+            ops.append(R(0, nb * K))
+            if rng.random() < 0.5:
+                ops.append(REOPEN(rng.random() < 0.5))
+            if rnd == 0:
+                ops.append(PUNCH(False))
+                for bl in rng.sample(range(nb), 2):
+                    tok += 1
+                    ops.append(W(bl * K, K, tok))
+                if rng.random() < 0.5:
+                    name += 1
+                    ops.append(SNAP(name, rng.random() < 0.3))
+        out.append(mkcase(ops, K=K, nb=nb, punch=False, rev=rev))
+    return out
+
+
 def resize_cases(rng, n):
     out = []
     for _ in range(n):
@@ -799,7 +867,9 @@ NONTRIVIAL = {
 RULE = {
     "C01": "histories of writes/reads (alignment classes x length classes, hot blocks), snapshots, deletions, reverts, reopen/reload "
            "with and without preload, punching on/off on a real replica.Server; enumerated offset x length pairs on 1-3 file chains; "
-           "a byte-granular stream (K=4096); reads issued while one chain file cannot be read (the harness swaps the descriptors it "
+           "a byte-granular stream (K=4096); preload's duplicate removal (blocks overwritten while punching is off, then punching on at a "
+           "Reload / open with preload: directed layouts with non-adjacent duplicates at distance 2, 3, 5 in one or two older files, "
+           "below / above a user-created snapshot, and random ones); reads issued while one chain file cannot be read (the harness swaps the descriptors it "
            "holds on that file for write-only ones for the duration of the call: every pread on it fails with EBADF, FIEMAP still "
            "works): enumerated on 2- and 3-file chains with alternating owners (every chain file in turn and one position outside "
            "the chain x 21 aligned / unaligned ranges ending in every owner, location table filled by reads or by preload) and random "
@@ -807,7 +877,8 @@ RULE = {
            "owned by a lower file, or the full read resolved a block through the FIEMAP probe, or a faulted read failed on a request "
            "spanning several files, or succeeded beside the broken file; distinct by operation list",
     "C06": "structured histories (cluster written, user/auto snapshots, partial overwrites, aligned multi-block writes across the cluster, "
-           "punching on) + random ones, NewReadOnly image and revert-on-copy of every snapshot after every step. non-trivial = a hole "
+           "punching on) + random ones + preload's duplicate removal (punching off during the overwrites, on at the preload; directed "
+           "non-adjacent duplicates incl. between two automatic snapshots below a user-created one), NewReadOnly image and revert-on-copy of every snapshot after every step. non-trivial = a hole "
            "was sent while a user-created snapshot existed (SnapIndx >= 1); distinct by operation list",
     "C11": "random chain shapes (3-9 members, user/removed flags, data spread) with sync.GetDeleteCandidateChain queries, deletions "
            "(PrepareRemoveDisk -> sparse.FoldFile -> RemoveDiffDisk) in random order, protected targets through del/prep/rm; passes of the "
@@ -834,12 +905,14 @@ def gen_cases(ctx, pid, quick):
             cases.append(Gen.make(rng, rng.randint(8, 15), rev=False))
         for i in range(6 if quick else 60):
             cases.append(Gen.make(rng, rng.randint(6, 9), K=4096, nb=3, bias=dict(resize=0.0)))
+        cases += enum_preload_dedup_cases(8) + preload_dedup_cases(rng, 8 if quick else 400)
         cases += [RF_CASE] + enum_read_fault_cases(8)
         cases += read_fault_cases(rng, 48 if quick else 1000)
     elif pid == "C06":
         cases += c06_cases(rng, 190 if quick else 4000)
         for i in range(40 if quick else 800):
             cases.append(Gen.make(rng, rng.randint(8, 14), rev=True, bias=dict(revert=0.12, user=0.6)))
+        cases += enum_preload_dedup_cases(8, rev=True) + preload_dedup_cases(rng, 8 if quick else 300, rev=True)
     elif pid == "C11":
         cases += [S7_CASE]
         cases += chain_shape_cases(rng, 100 if quick else 2500)
